@@ -135,6 +135,12 @@ def fifo(k1: int, sched: List[int], tgt: List[int]) -> bool:
     pre: all(0 <= s < P["maxstep"] for s in sched) and all(sched[i] < sched[i + 1] for i in range(len(sched) - 1)) and all(0 <= x <= 2 for x in tgt)
     post: _
     """
+    return fifo_body(k1, sched, tgt)
+
+
+def fifo_body(k1, sched, tgt):
+    # no contract of its own: CrossHair enforces the contracts of *called* functions and silently drops a path on which a
+    # callee's postcondition fails - C07.wire_once calls this body, not `fifo`
     hx.begin()
     inputs = (k1, sched, tgt)
     kv = hx.concretize_range(k1, -3, 49)
